@@ -36,7 +36,114 @@ fn panic_class(m: &str) -> String {
     }
 }
 
+struct Discard;
+impl log::Log for Discard {
+    fn enabled(&self, _: &log::Metadata) -> bool {
+        true
+    }
+    fn log(&self, r: &log::Record) {
+        // format the message (evaluates its arguments), then drop it
+        let _ = format!("{}", r.args());
+    }
+    fn flush(&self) {}
+}
+
+/// Library users may run with debug logging on: the arguments of every log statement are
+/// evaluated then.  Installed for the library part of this check.
+pub fn enable_discarding_logger() {
+    static L: Discard = Discard;
+    let _ = log::set_logger(&L);
+    log::set_max_level(log::LevelFilter::Trace);
+}
+
+/// "run until converged": an astronomically large step count with a threshold that ends the run
+/// after six loops.  Only the thresholded run can be executed.
+fn check_lib_huge(sc: &ScriptedCase, st: &mut Stats) {
+    // An allocation failure aborts the process and cannot be caught: run the case in a child.
+    if std::env::var("PV_CHILD").is_err() {
+        st.eval();
+        let c = Case::Lib(sc.clone());
+        st.nontrivial(hash_str(&serde_json::to_string(sc).unwrap_or_default()));
+        st.count("config[steps=huge]");
+        let dir = format!("{}/.build/scratch", crate::common::verif_dir());
+        let _ = std::fs::create_dir_all(&dir);
+        let path = format!("{}/c20-child-{}-{}.json", dir, std::process::id(), hash_str(&serde_json::to_string(sc).unwrap_or_default()));
+        let body = json!({"property": "C20", "kind": "c20.run", "case": c});
+        if std::fs::write(&path, serde_json::to_string(&body).unwrap_or_default()).is_err() {
+            st.inconclusive.push("cannot write child case file".into());
+            return;
+        }
+        let exe = match std::env::current_exe() {
+            Ok(e) => e,
+            Err(_) => return,
+        };
+        let mut child = match std::process::Command::new(exe).args(&["C20", "--replay", &path]).env("PV_CHILD", "1").stdout(std::process::Stdio::piped()).stderr(std::process::Stdio::null()).spawn() {
+            Ok(c) => c,
+            Err(e) => {
+                st.inconclusive.push(format!("cannot spawn child: {}", e));
+                return;
+            }
+        };
+        // watchdog: the run is six short loops; a minute is generous
+        let t0 = std::time::Instant::now();
+        let status = loop {
+            match child.try_wait() {
+                Ok(Some(s)) => break Some(s),
+                Ok(None) => {
+                    if t0.elapsed().as_secs() > 120 {
+                        let _ = child.kill();
+                        let _ = child.wait();
+                        break None;
+                    }
+                    std::thread::sleep(std::time::Duration::from_millis(5));
+                }
+                Err(_) => break None,
+            }
+        };
+        let mut out = String::new();
+        if let Some(mut so) = child.stdout.take() {
+            use std::io::Read;
+            let _ = so.read_to_string(&mut out);
+        }
+        let _ = std::fs::remove_file(&path);
+        match status {
+            None => st.violation(viol("does-not-return-after-the-convergence-exit-is-due", &c, json!({"waited_s": 120, "steps": sc.cfg.steps, "convergence": sc.cfg.convergence}))),
+            Some(s) => {
+                use std::os::unix::process::ExitStatusExt;
+                if let Some(sig) = s.signal() {
+                    st.violation(viol("process-aborted", &c, json!({"signal": sig, "steps": sc.cfg.steps, "inner_steps": sc.cfg.inner_steps, "convergence": sc.cfg.convergence, "note": "an abort (e.g. allocation failure) cannot be caught by the caller"})));
+                } else if s.code() == Some(1) {
+                    let line = out.lines().find(|l| l.contains("violation kind")).unwrap_or("").to_string();
+                    let what = line.split("signature=optimise_state:").nth(1).and_then(|r| r.split(' ').next()).unwrap_or("child-reported-violation").to_string();
+                    st.violation(viol(&what, &c, json!({"child_output": line.chars().take(600).collect::<String>()})));
+                } else if s.code() != Some(0) {
+                    st.inconclusive.push(format!("child ended with status {:?}", s.code()));
+                }
+            }
+        }
+        return;
+    }
+    st.eval();
+    let c = Case::Lib(sc.clone());
+    st.nontrivial(hash_str(&serde_json::to_string(sc).unwrap_or_default()));
+    st.count("config[steps=huge]");
+    let b = mc::run_scripted(sc, false);
+    if let Some(p) = &b.panicked {
+        st.violation(viol(&panic_class(p), &c, json!({"panic": p, "steps": sc.cfg.steps, "inner_steps": sc.cfg.inner_steps, "convergence": sc.cfg.convergence})));
+        return;
+    }
+    let inner = sc.cfg.effective_inner();
+    let calls = b.monitor.calls as u64;
+    // every loop improves by less than the (huge) threshold: exit is due after loop 6
+    if calls != 1 + 6 * inner {
+        st.violation(viol("convergence-exit-at-the-wrong-loop", &c, json!({"calls": calls, "expected_calls": 1 + 6 * inner})));
+    }
+}
+
 pub fn check_lib(sc: &ScriptedCase, st: &mut Stats) {
+    if sc.cfg.steps > 50_000_000 {
+        return check_lib_huge(sc, st);
+    }
     st.eval();
     let c = Case::Lib(sc.clone());
     let cfg = &sc.cfg;
@@ -154,6 +261,25 @@ pub fn check_lib(sc: &ScriptedCase, st: &mut Stats) {
 }
 
 pub fn gen_lib<R: Rng>(rng: &mut R, big: bool) -> ScriptedCase {
+    if rng.gen_range(0, 40) == 0 {
+        let k = 6;
+        return ScriptedCase {
+            init: (0..k).map(|_| rng.gen_range(-0.9, 0.9)).collect(),
+            bounds: (0..k).map(|_| (-1., 1.)).collect(),
+            script: Script::Bowl { centre: (0..k).map(|_| rng.gen_range(-0.5, 0.5)).collect(), wall: None },
+            cfg: OptCfg {
+                steps: [u64::MAX, u64::MAX / 2, 1u64 << 62, 1u64 << 40][rng.gen_range(0, 4)],
+                inner_steps: [1, 10, 1000][rng.gen_range(0, 3)],
+                kt_start: [0., 0.1][rng.gen_range(0, 2)],
+                kt_finish: [None, Some(1e-3)][rng.gen_range(0, 2)],
+                kt_ratio: [None, Some(0.1)][rng.gen_range(0, 2)],
+                max_step_size: 0.01,
+                seed: rng.gen::<u32>() as u64,
+                convergence: Some(1e9),
+            },
+            via_api: rng.gen_bool(0.4),
+        };
+    }
     let vals: &[u64] = if big { &[0, 1, 2, 3, 7, 999, 1000, 1001, 2500, 100_000] } else { &[0, 1, 2, 3, 7, 999, 1000, 1001, 2500] };
     let steps = vals[rng.gen_range(0, vals.len())];
     let inner = match rng.gen_range(0, 4) {
@@ -264,6 +390,15 @@ pub fn cli_grid<R: Rng>(rng: &mut R, n: usize) -> Vec<(Vec<String>, Vec<String>,
     out.push((sv(&["--replications", "1", "--steps", "20", "--convergence", "1e9"]), sv(&["p2gg", "trimer"]), false));
     out.push((sv(&["--replications", "3", "--steps", "7000", "--inner-steps", "100", "--convergence", "1e-3", "--kt-start", "0"]), sv(&["p2", "polygon", "--sides", "6"]), false));
     out.push((sv(&["--replications", "1", "--steps", "20"]), sv(&["p3", "circle"]), false));
+    // debug / trace logging evaluates every log statement's arguments
+    out.push((sv(&["-v", "--replications", "2", "--steps", "0"]), sv(&["p2", "circle"]), false));
+    out.push((sv(&["-vv", "--replications", "1", "--steps", "0", "--inner-steps", "0"]), sv(&["p1", "polygon", "--sides", "4"]), false));
+    out.push((sv(&["-v", "--replications", "2", "--steps", "30", "--inner-steps", "7", "--convergence", "1e9"]), sv(&["p2mg", "trimer"]), false));
+    out.push((sv(&["-vvv", "--replications", "1", "--steps", "10", "-p", "LJ"]), sv(&["p1", "trimer"]), false));
+    // "run until converged"
+    out.push((sv(&["--replications", "2", "--steps", "18446744073709551615", "--inner-steps", "10", "--convergence", "1e9"]), sv(&["p2", "polygon", "--sides", "4"]), false));
+    out.push((sv(&["--replications", "1", "--steps", "18446744073709551615", "--convergence", "1e9", "--kt-ratio", "0.1"]), sv(&["p1", "circle"]), false));
+    out.push((sv(&["--replications", "1", "--steps", "4611686018427387904", "--inner-steps", "3", "--convergence", "1e9", "-p", "LJ"]), sv(&["p2", "circle"]), false));
     out.push((sv(&["--replications", "1", "--steps", "-5"]), sv(&["p1", "circle"]), false));
     out.push((sv(&["--replications", "1", "--steps", "20"]), sv(&["p1", "trimer", "--radius", "0.43", "--angle", "64", "--distance", "0.21"]), false));
     out.push((sv(&["--replications", "2", "--steps", "200", "-p", "LJ"]), sv(&["p2", "trimer", "--radius", "1.0", "--distance", "0"]), false));
@@ -294,6 +429,9 @@ pub fn cli_grid<R: Rng>(rng: &mut R, n: usize) -> Vec<(Vec<String>, Vec<String>,
             pre.push("--convergence".into());
             pre.push(["0", "1e-9", "1e-3", "1e9"][rng.gen_range(0, 4)].into());
         }
+        if rng.gen_bool(0.15) {
+            pre.insert(0, ["-v", "-vv"][rng.gen_range(0, 2)].into());
+        }
         if rng.gen_bool(0.3) {
             pre.push("--max-step-size".into());
             pre.push(["0.001", "0.1", "1"][rng.gen_range(0, 3)].into());
@@ -322,6 +460,7 @@ pub fn run(ctx: &Ctx) {
     ctx.set_rule("library: optimise_state on deterministic bowl landscapes (k = 6, optionally with an undefined region) for steps, inner_steps in {0,1,2,3,7,999,1000,1001,2500,(1e5)} incl. non-multiples and inner_steps > steps, temperatures 0..10, all schedule options, convergence in {unset,0,1e-9,1e-5,2e-4,1e-3,3e-3,1e9}; each configuration is run without and with its threshold: no panic, number of proposals (score calls - 2) within [steps - one loop, steps], the convergent run's call log a bit-exact prefix of the full run's, and the exit at exactly the loop the >5-consecutive-slow-loops rule dictates (decided from the scores at loop boundaries of the full run). CLI: the real binary over groups x shapes x potentials x replications {0,1,3} x the same step settings, unwritable output path, polygon --sides 0..3, polygon -p LJ, unknown group, negative steps: exit 0 needs both parseable files, non-zero needs a message, never a panic (status 101, 'panicked at', signal). Non-trivial = edge configurations (0, non-multiples, inner > steps), runs with a threshold, every CLI run; distinct by configuration");
     let n_lib = ctx.tier.pick(50u64, 1_500u64);
     let big = ctx.tier == Tier::Thorough;
+    enable_discarding_logger();
     let prev = std::panic::take_hook();
     std::panic::set_hook(Box::new(|_| {}));
     par_shards(ctx, 20, 64, |_, rng, st| {
